@@ -36,7 +36,8 @@ struct SharedBusState {
     cx: Cx,
     bus: VirtualSignBus<'static>,
     /// one bus per sign holding only a twin of that sign, fed only the traffic that concerns it
-    shadows: Vec<VirtualSignBus<'static>>,
+    /// solo twins: bare signs driven through `VirtualSign::process_message`, no bus around them
+    shadows: Vec<VirtualSign<'static>>,
     addrs: Vec<Address>,
     dead: bool,
     delivered: u64,
@@ -86,8 +87,8 @@ impl SharedBusState {
                 shadow_replies.push(None);
                 continue;
             }
-            match catch(|| sh.process_message(m.clone())) {
-                Ok(Ok(r)) => shadow_replies.push(r.map(|r| to_static(&r))),
+            match catch(|| sh.process_message(m)) {
+                Ok(r) => shadow_replies.push(r.map(|r| to_static(&r))),
                 _ => {
                     self.dead = true;
                     self.cx.discard("virtual-sign-panicked");
@@ -185,7 +186,7 @@ impl SharedBusState {
         }
         // 3. every sign behaves exactly like a twin that only ever saw its own traffic
         for i in 0..n {
-            let solo = observe(self.shadows[i].sign(0));
+            let solo = observe(&self.shadows[i]);
             if solo != after[i] {
                 self.cx.fail(
                     "C14/differs-from-solo-sign",
@@ -205,7 +206,7 @@ impl SharedBusState {
             }
             // ... also as a whole value: `VirtualSign` is `PartialEq` / `Debug` / `Clone` / `Hash`, so what
             // a caller can observe includes what those see (buffered bytes, counters)
-            if self.shadows[i].sign(0) != self.bus.sign(i) {
+            if &self.shadows[i] != self.bus.sign(i) {
                 self.cx.fail(
                     "C14/differs-from-solo-sign-as-a-value",
                     format!(
@@ -269,8 +270,35 @@ impl Scenario for C14 {
         };
         let addrs = gens::distinct_addresses(cx, nsigns);
         let flips: Vec<PageFlipStyle> = (0..nsigns).map(|_| gens::flip_style(cx)).collect();
-        let bus = VirtualSignBus::new(addrs.iter().zip(flips.iter()).map(|(a, f)| VirtualSign::new(*a, *f)));
-        let shadows = addrs.iter().zip(flips.iter()).map(|(a, f)| VirtualSignBus::new(vec![VirtualSign::new(*a, *f)])).collect();
+        // Signs need not be fresh when the bus is put together: now and then one has been driven on its own
+        // before (through the public `VirtualSign::process_message`) and joins the bus mid-transfer or
+        // already configured. Its solo twin starts as a clone of it.
+        let mut signs: Vec<VirtualSign<'static>> = addrs.iter().zip(flips.iter()).map(|(a, f)| VirtualSign::new(*a, *f)).collect();
+        for sg in signs.iter_mut() {
+            if cx.chance(1, 6) {
+                cx.probe("sign_that_joined_the_bus_with_a_history");
+                let a = sg.address();
+                let block = gens::sign_type(cx).to_bytes().to_vec();
+                let mut pre: Vec<Message<'static>> = vec![Message::RequestOperation(a, flipdot_core::Operation::ReceiveConfig), Message::SendData(flipdot_core::Offset(0), gens::data(block))];
+                if cx.chance(2, 3) {
+                    pre.push(Message::DataChunksSent(flipdot_core::ChunkCount(1)));
+                    if cx.chance(2, 3) {
+                        pre.push(Message::RequestOperation(a, flipdot_core::Operation::ReceivePixels));
+                        for k in 0..cx.draw(4) {
+                            pre.push(Message::SendData(flipdot_core::Offset(16 * k as u16), gens::data(gens::payload(cx, 16))));
+                        }
+                    }
+                }
+                for m in &pre {
+                    if catch(|| sg.process_message(m)).is_err() {
+                        cx.discard("virtual-sign-panicked");
+                        return cx.verdict();
+                    }
+                }
+            }
+        }
+        let shadows: Vec<VirtualSign<'static>> = signs.clone();
+        let bus = VirtualSignBus::new(signs);
         cx.event("bus", &addrs.iter().zip(flips.iter()).map(|(a, f)| (a.0, *f == PageFlipStyle::Automatic)).collect::<Vec<_>>());
         let shared = Arc::new(Mutex::new(SharedBusState { cx: cx.clone(), bus, shadows, addrs: addrs.clone(), dead: false, delivered: 0 }));
         let nctl = 1 + cx.draw(4) as usize;
